@@ -1110,3 +1110,108 @@ def run_one(ctx, h):
 def replay(ctx, aspect, case):
     h = History(ctx, aspect, int(case["hseed"]), int(case["nsteps"]), case.get("profile"))
     run_one(ctx, h)
+
+
+# --------------------------------------------------------------------------- #
+# Row counts at the edge of what 32-bit row ids can address.  The dense model cannot hold four
+# billion rows, so these few scenarios keep a sparse model {(row, column): value} of the cells that
+# differ from the common value.
+ROW_LIMIT = 2 ** 32
+
+
+def giant_append_cases(rng, n):
+    for i in range(n):
+        d = int(gen.pick(rng, [1, 2, 5, 25, 300]))
+        k = int(gen.pick(rng, [1, 2, 7, 30, 300]))
+        if i % 3 == 0:
+            k = d                                     # exactly fills the last addressable row
+        elif i % 3 == 1 and k <= d:
+            k = d + int(gen.pick(rng, [1, 2, 9]))     # crosses the limit
+        ncols = int(gen.pick(rng, [0, 0, 2]))         # 0: a 1-D index
+        yield {"kind": "giant_append", "rows": ROW_LIMIT - d, "k": k, "ncols": ncols,
+               "same_common": bool(rng.random() < 0.5), "gseed": int(rng.integers(0, 2 ** 31))}
+
+
+def giant_append(ctx, aspect, case):
+    """append() onto an index of just under 2^32 rows: below the limit the result must be right; beyond it the
+    operation must refuse or still give a right result - never wrap row ids around."""
+    from catii import iindex
+    from .worker import blame
+
+    rng = numpy.random.default_rng(case["gseed"])
+    R, k, ncols = int(case["rows"]), int(case["k"]), int(case["ncols"])
+    cols = [()] if ncols == 0 else [(c,) for c in range(ncols)]
+    common = 0
+    # the receiver: a handful of listed rows, among them its very last row
+    model = {}
+    entries = {}
+    for col in cols:
+        rows = sorted(set([R - 1, 3] + [int(x) for x in rng.integers(0, R, size=2)]))
+        for j, r in enumerate(rows):
+            v = 1 + (j % 2)
+            model[(r,) + col] = v
+            entries.setdefault((v,) + col, []).append(r)
+    recv = iindex({key: numpy.array(sorted(v), dtype=U32) for key, v in entries.items()}, common, (R,) + ((ncols,) if ncols else ()))
+    # the other: k dense rows
+    ocommon = common if case["same_common"] else 5
+    om = rng.integers(0, 3, size=(k,) + ((ncols,) if ncols else ())).astype(I64)
+    if not case["same_common"]:
+        om[rng.random(om.shape) < 0.5] = ocommon
+    other = gen.dense_to_index(om, ocommon)
+    for pos in numpy.ndindex(*om.shape):
+        v = int(om[pos])
+        if v != common:
+            model[(R + pos[0],) + tuple(pos[1:])] = v
+    fits = R + k <= ROW_LIMIT
+    ctx.count("giant:append_%s" % ("within_2^32_rows" if fits else "beyond_2^32_rows"))
+    ctx.evaluation(("giant", R, k, ncols, case["same_common"], case["gseed"]), True)
+    try:
+        recv.append(other)
+    except Exception as e:
+        where, site = blame(e)
+        if where != "library":
+            raise
+        if fits:
+            ctx.violation("giant-append:raises-within-limit", "append of %d rows onto %d rows (total %d <= 2^32) raised %s: %s"
+                          % (k, R, R + k, type(e).__name__, e), case)
+        else:
+            ctx.count("giant:append_beyond_limit_refused")
+        return
+    # it returned: the result must be well-formed and stand for the concatenation
+    shape = (R + k,) + ((ncols,) if ncols else ())
+    problems = []
+    if tuple(recv.shape) != shape:
+        problems.append("shape %r, expected %r" % (recv.shape, shape))
+    got = {}
+    for key, rowids in dict.items(recv):
+        a = numpy.asarray(rowids)
+        if a.dtype.kind != "u" or a.ndim != 1 or len(a) == 0:
+            problems.append("entry %r is %s array of %d" % (key, a.dtype, a.size))
+            continue
+        ids = [int(x) for x in a.tolist()]
+        if any(y <= x for x, y in zip(ids, ids[1:])):
+            problems.append("row ids of entry %r are not strictly increasing: %r" % (key, ids[:6]))
+        if ids and ids[-1] >= shape[0]:
+            problems.append("entry %r lists row %d of %d" % (key, ids[-1], shape[0]))
+        if key[0] == recv.common:
+            problems.append("entry %r is listed under the common value" % (key,))
+        for r in ids:
+            if (r,) + tuple(key[1:]) in got:
+                problems.append("row %d listed twice in column %r" % (r, key[1:]))
+            got[(r,) + tuple(key[1:])] = int(key[0])
+    if aspect == "C07":
+        ctx.count("wf:checked")
+        if problems:
+            ctx.violation("giant-append:ill-formed:" + ("within-limit" if fits else "beyond-limit"),
+                          "append of %d rows onto %d rows returned an ill-formed index: %s" % (k, R, "; ".join(problems[:3])), case)
+        return
+    if problems:
+        ctx.count("stopped:ill-formed(blame C07)")
+        return
+    if recv.common != common:
+        ctx.count("giant:common_changed(not judged)")
+        return
+    if got != model:
+        diff = sorted(set(got.items()) ^ set(model.items()))[:4]
+        ctx.violation("giant-append:content:" + ("within-limit" if fits else "beyond-limit"),
+                      "append of %d rows onto %d rows: the listed cells differ from the concatenation, e.g. %r" % (k, R, diff), case)
